@@ -871,6 +871,17 @@ func (c *DynamicConverter) From(obj interface{}) (Object, error) {
 	return conv.From(obj)
 }
 
+// valueOrZero returns the reflect.Value of a converted Go value. Converters
+// return an untyped nil for nil pointers, slices, maps and interfaces, which
+// reflect.ValueOf turns into the invalid Value; the zero value of the target
+// type is what has to be stored in that case.
+func valueOrZero(v interface{}, typ reflect.Type) reflect.Value {
+	if v == nil {
+		return reflect.Zero(typ)
+	}
+	return reflect.ValueOf(v)
+}
+
 // MapConverter converts between map[string]interface{} and *Map.
 type MapConverter struct {
 	valueConverter TypeConverter
@@ -893,7 +904,7 @@ func (c *MapConverter) To(obj Object) (interface{}, error) {
 		if err != nil {
 			return nil, err
 		}
-		gMap.SetMapIndex(reflect.ValueOf(k), reflect.ValueOf(conv))
+		gMap.SetMapIndex(reflect.ValueOf(k), valueOrZero(conv, c.valueType))
 	}
 	return gMap.Interface(), nil
 }
@@ -953,7 +964,7 @@ func (c *StructConverter) To(obj Object) (interface{}, error) {
 						if err != nil {
 							return nil, err
 						}
-						f.Set(reflect.ValueOf(attrValue))
+						f.Set(valueOrZero(attrValue, f.Type()))
 					}
 				}
 			}
@@ -1046,7 +1057,7 @@ func (c *SliceConverter) To(obj Object) (interface{}, error) {
 		if err != nil {
 			return nil, errz.TypeErrorf("type error: failed to convert slice element: %v", err)
 		}
-		slice = reflect.Append(slice, reflect.ValueOf(item))
+		slice = reflect.Append(slice, valueOrZero(item, c.valueType))
 	}
 	return slice.Interface(), nil
 }
@@ -1101,7 +1112,7 @@ func (c *ArrayConverter) To(obj Object) (interface{}, error) {
 		if err != nil {
 			return nil, errz.TypeErrorf("type error: failed to convert element: %v", err)
 		}
-		arrayElem.Index(i).Set(reflect.ValueOf(item))
+		arrayElem.Index(i).Set(valueOrZero(item, c.valueType))
 	}
 	return arrayElem.Interface(), nil
 }
